@@ -9,31 +9,18 @@ import (
 // The guard hypotheses of the known findings (KNOWN_FINDINGS.txt, property C03).  The main
 // generators stay inside them; the recorded failing inputs are replayed from the corpus.
 //
-//   int_plain       every JSON number in the schema is a plain decimal integer literal that fits
-//                   an int64 (no fraction, no exponent).  Outside it, gojsonschema accepts the
-//                   literal as an "integer" above its `minimum`, json.Unmarshal cannot store it
-//                   into an int, the error is discarded and the field keeps 0.
-//   xd_no_null      no JSON null / array / nested declaration container inside an `xpath_dynamic`
-//                   value, whose JSON schema (`"type":"object"` with an inert `items`) does not
-//                   constrain its content.
 //   tpl_small       the total size of the template expansion (number of declaration nodes after
-//                   copying every referenced template at every reference site) is <= 50000.
+//                   copying every referenced template at every reference site) is <= 50000 (N3).
 //   groups_small    csv2 `child_records` / fixedlength2 `child_envelopes`: their JSON schema is a
 //                   `oneOf` of three alternatives that all recurse into the children, which
 //                   gojsonschema evaluates in time cost(list) = sum over elements of
-//                   3 * (1 + cost(children)); the guard is cost <= 50000 (about 0.3 s).
-//   xpath_plain     no xpath string (value of an `xpath` member, or any string below `xpath_dynamic`)
-//                   has a function call outside a predicate: such expressions compile, but
-//                   antchfx/xpath dereferences nil when they are used through Expr.Select.
-//   js_export_total javascript sources come from the generator's pool of scripts whose completion
-//                   value exports to Go without running user code (accessors) that throws.
+//                   3 * (1 + cost(children)); the guard is cost <= 50000 (about 0.3 s) (N4).
+//   js_no_map_set   javascript sources come from the generator's pools without Map / Set results:
+//                   goja's own export of a Map / Set that contains itself overflows the stack (N8).
+//
+// The guards int_plain, xd_no_null, xpath_plain and js_export_total of the first round are gone:
+// N1, N2, N5, N6, N7 are repaired and the generators exercise those classes.
 func guardViolation(tree interface{}) string {
-	if g := walkGuard(tree, false); g != "" {
-		return g
-	}
-	if on("xpath_plain") && !xpathsPlain(tree, false) {
-		return "xpath_plain"
-	}
 	if on("groups_small") && groupCost(tree) > 50000 {
 		return "groups_small"
 	}
@@ -50,32 +37,6 @@ func plainInt(n json.Number) bool {
 	}
 	_, err := strconv.ParseInt(s, 10, 64)
 	return err == nil
-}
-
-func walkGuard(v interface{}, inXD bool) string {
-	switch x := v.(type) {
-	case json.Number:
-		if !plainInt(x) && on("int_plain") {
-			return "int_plain"
-		}
-	case nil:
-		if inXD && on("xd_no_null") {
-			return "xd_no_null"
-		}
-	case []interface{}:
-		for _, e := range x {
-			if g := walkGuard(e, inXD); g != "" {
-				return g
-			}
-		}
-	case map[string]interface{}:
-		for _, k := range keysOf(x) {
-			if g := walkGuard(x[k], inXD || k == "xpath_dynamic"); g != "" {
-				return g
-			}
-		}
-	}
-	return ""
 }
 
 // expansionSize computes how many declaration nodes ValidateTransformDeclarations visits when it
@@ -181,72 +142,4 @@ func groupCost(v interface{}) int64 {
 		return 0
 	}
 	return listCost(fd["records"]) + listCost(fd["envelopes"])
-}
-
-// xpathPlain: no `name(` at bracket depth 0 other than the node-type tests.
-func xpathPlain(x string) bool {
-	depth := 0
-	var quote byte
-	for i := 0; i < len(x); i++ {
-		c := x[i]
-		if quote != 0 {
-			if c == quote {
-				quote = 0
-			}
-			continue
-		}
-		switch c {
-		case '\'', '"':
-			quote = c
-		case '[':
-			depth++
-		case ']':
-			if depth > 0 {
-				depth--
-			}
-		case '(':
-			if depth > 0 {
-				continue
-			}
-			j := i
-			for j > 0 && (x[j-1] == ' ' || x[j-1] == '\t') {
-				j--
-			}
-			k := j
-			for k > 0 && (x[k-1] == '-' || x[k-1] == '_' || x[k-1] == ':' || x[k-1] >= '0' && x[k-1] <= '9' || x[k-1] >= 'a' && x[k-1] <= 'z' || x[k-1] >= 'A' && x[k-1] <= 'Z' || x[k-1] >= 0x80) {
-				k--
-			}
-			switch x[k:j] {
-			case "":
-				// a parenthesised expression
-			case "text", "node", "comment", "processing-instruction":
-			default:
-				return false
-			}
-		}
-	}
-	return true
-}
-
-func xpathsPlain(v interface{}, inXD bool) bool {
-	switch x := v.(type) {
-	case string:
-		return !inXD || xpathPlain(x)
-	case []interface{}:
-		for _, e := range x {
-			if !xpathsPlain(e, inXD) {
-				return false
-			}
-		}
-	case map[string]interface{}:
-		for _, k := range keysOf(x) {
-			if s, ok := x[k].(string); ok && k == "xpath" && !xpathPlain(s) {
-				return false
-			}
-			if !xpathsPlain(x[k], inXD || k == "xpath_dynamic") {
-				return false
-			}
-		}
-	}
-	return true
 }
